@@ -8,3 +8,4 @@ INVARIANT PatchChainStochastic
 INVARIANT SwitchOneIsIndependent
 INVARIANT SwitchZeroIsOnePatch
 INVARIANT HmmSumsToOne
+INVARIANT BinLengthsConsistent
